@@ -80,6 +80,10 @@ EpDen(c, V) == MulS(MulS(Mul(Mul(V, V), V), 4), W(c))
 \* weighted empirical CDF numerator at the lattice point t (delta kernel)
 SE(c, t, i, acc) == IF i = 0 THEN acc ELSE SE(c, t, i - 1, IF SCmp(c.xs[i], t) <= 0 THEN acc + Wt(c, i) ELSE acc)
 
+RECURSIVE DeSumJ(_,_,_)
+DeSumJ(c, im, j) == IF j = 0 THEN SZero ELSE
+   LET v == SFrom(SE(c, im[j].t, Len(c.xs), 0)) IN SAdd(IF im[j].s = 1 THEN v ELSE SNeg(v), DeSumJ(c, im, j - 1))
+DeSum(c, im) == DeSumJ(c, im, Len(im))
 \* ---- reflection structure, at the point tn / td ----
 HasLo(c) == c.kind \in {"lo", "both"}
 HasHi(c) == c.kind \in {"hi", "both"}
@@ -137,6 +141,11 @@ New == Ev("New") /\ k' = Cfg(Trace[l]) /\ UNCHANGED sc
 SetKernel == Ev("SetKernel") /\ k.kern # "none" /\ k' = [k EXCEPT !.kern = Trace[l].kern] /\ UNCHANGED sc
 SetBandwidth == Ev("SetBandwidth") /\ k.kern # "none" /\ UNCHANGED sc
                 /\ k' = [k EXCEPT !.hm = Trace[l].hm, !.he = Trace[l].he, !.auto = (Trace[l].hm = <<>>)]
+\* the Sample field is public too: new weights / new values on an object that has already been queried
+SetWeights == Ev("SetWeights") /\ k.kern # "none" /\ UNCHANGED sc /\ Len(Trace[l].ws) \in {0, Len(k.xs)}
+              /\ k' = [k EXCEPT !.ws = Trace[l].ws]
+SetXs == Ev("SetXs") /\ k.kern # "none" /\ UNCHANGED sc /\ Len(Trace[l].xs) >= 1 /\ Len(Trace[l].ws) \in {0, Len(Trace[l].xs)}
+         /\ k' = [k EXCEPT !.xs = [i \in 1..Len(Trace[l].xs) |-> Sg(Trace[l].xs[i])], !.ws = Trace[l].ws]
 SetBounds == Ev("SetBounds") /\ k.kern # "none" /\ UNCHANGED sc
              /\ k' = [k EXCEPT !.kind = Trace[l].kind, !.lo = Sg(Trace[l].lo), !.hi = Sg(Trace[l].hi)]
 
@@ -162,25 +171,32 @@ Judge(c, e) == LET x == Sg(e.x)  one == <<1>> IN
                     /\ Near(e.pdf, GSum(e.g, Len(e.g), TRUE), RScale2(InvH(c), 0 - sc), 30)
                     /\ Near(e.cdf, RAdd(GSum(e.g, Len(e.g), FALSE), CdfConst(c)), OneR, 30)
        [] c.kern = "de" ->
-            (c.kind = "none") => Near(e.cdf, [n |-> SFrom(SE(c, x, Len(c.xs), 0)), d |-> FromNat(W(c))], OneR, 40)
+            \* the delta kernel's "kernel average" is the weighted empirical CDF (a right-continuous step function); with
+            \* boundaries it is folded by the same structure; its density is not a function (only its zeros are claimed)
+            /\ ProbOK(e.cdf)
+            /\ IF Below(c, x, one) THEN e.pdf.c = "fin" /\ e.pdf.d.s = 0 /\ e.cdf.d.s = 0
+               ELSE IF AboveEq(c, x, one) THEN e.pdf.c = "fin" /\ e.pdf.d.s = 0 /\ REq(DyRat(e.cdf.d), OneR)
+               ELSE /\ Covers(c, e.N, Zero)
+                    /\ Near(e.cdf, RAdd([n |-> DeSum(c, Images(c, x, one, e.N)), d |-> FromNat(W(c))], CdfConst(c)), OneR, 40)
 Query == /\ Ev("Query") /\ k.kern # "none" /\ UNCHANGED sc
          /\ AfterOK(Trace[l]) /\ k' = After(Trace[l]) /\ Judge(After(Trace[l]), Trace[l])
 
 \* Bounds: finite, ordered, inside the boundaries, >= 98% of the mass between them
 Mass98(m) == RLe(RatI(98, 100), RAdd(m, RShr(OneR, 30)))
-BoundsEv == /\ Ev("Bounds") /\ k.kern \in {"ep", "ga"} /\ UNCHANGED sc
+BoundsEv == /\ Ev("Bounds") /\ k.kern # "none" /\ UNCHANGED sc
             /\ LET e == Trace[l]  c == After(e) IN
                /\ AfterOK(e) /\ k' = c /\ e.intact = 1
                /\ Fin(e.blo) /\ Fin(e.bhi)
                /\ LET lo == Lat(e.blo.d)  hi == Lat(e.bhi.d)  rlo == DyRat(lo)  rhi == DyRat(hi) IN
-                  /\ RLt(rlo, rhi)
+                  /\ IF c.kern = "de" THEN RLe(rlo, rhi) ELSE RLt(rlo, rhi)      \* a step function's 0.5% and 99.5% points may coincide
                   /\ HasLo(c) => RLe(SR(c.lo), rlo)
                   /\ HasHi(c) => RLe(rhi, SR(c.hi))
                   /\ IF c.kern = "ep"
                      THEN /\ Covers(c, e.N, HRat(c))
                           /\ Mass98(RSub(EpCdfAt(c, DyTn(hi), DyTd(hi), e.N), EpCdfAt(c, DyTn(lo), DyTd(lo), e.N)))
-                     ELSE Fin(e.mass) /\ Mass98(DyRat(e.mass.d))
-Next == Reset \/ New \/ SetKernel \/ SetBandwidth \/ SetBounds \/ Query \/ BoundsEv
+                     ELSE IF c.kern = "ga" THEN Fin(e.mass) /\ Mass98(DyRat(e.mass.d))
+                     ELSE TRUE         \* delta kernel: atoms may sit on the interval's ends; only finiteness, order and the boundaries are claimed
+Next == Reset \/ New \/ SetKernel \/ SetBandwidth \/ SetBounds \/ SetWeights \/ SetXs \/ Query \/ BoundsEv
 Spec == Init /\ [][Next]_vars
 Accepted == TLCGet("stats").diameter - 1 = Len(Trace)
 =============================================================================
